@@ -50,20 +50,29 @@ fn pythagorean(n: usize) -> Vec<Vec<i64>> {
 fn exact<V: Inner<Ex, N>, const N: usize>(rep: &mut Report) {
     type T = Ex;
     let py = pythagorean(N);
-    let scales: [R; 5] = [(-2, 1), (-1, 1), (1, 1), (2, 1), (1, 2)];
+    // the last two stand for (1 + 2^-20)/L and (1 - 2^-20)/L, L the direction's integer length: vectors a hair off unit
+    // length (what an "already normalised" short cut would take for unit vectors)
+    let scales: [R; 7] = [(-2, 1), (-1, 1), (1, 1), (2, 1), (1, 2), (0, 1), (0, -1)];
     let gen: Vec<[T; N]> = (0..3).map(|v| vec_from_r::<T, N>(&alphabet::generic(N, v))).collect();
     let mags: [R; 4] = [(1, 1), (3, 1), (-2, 1), (1, 2)];
     let total = py.len() * scales.len() * py.len();
     rep.cases(
         &format!("exact/{}", V::NAME),
         "X",
-        &format!("{} Pythagorean directions x 5 scales x {} second directions; 3 generic offsets; 4 target magnitudes", py.len(), py.len()),
+        &format!("{} Pythagorean directions x 7 scales (+-2, +-1, 1/2, and (1 +- 2^-20)/length) x {} second directions; 3 generic offsets; 4 target magnitudes", py.len(), py.len()),
         total,
         Guard::states(2).distinct(2),
         |i, ctx| {
             let (ui, rest) = (i / (scales.len() * py.len()), i % (scales.len() * py.len()));
             let (si, vi) = (rest / py.len(), rest % py.len());
-            let s: T = rq(scales[si]);
+            let s: T = if scales[si].0 == 0 {
+                let l2: i64 = py[ui].iter().map(|x| x * x).sum();
+                let l = (l2 as f64).sqrt().round() as i64;
+                assert_eq!(l * l, l2, "harness: Pythagorean direction with non-integer length");
+                T::q((1 << 20) + scales[si].1, (1 << 20) * l)
+            } else {
+                rq(scales[si])
+            };
             let u: [T; N] = std::array::from_fn(|j| T::int(py[ui][j]) * s);
             let v: [T; N] = std::array::from_fn(|j| T::int(py[vi][j]));
             ctx.describe(|| format!("{} u={:?} v={:?}", V::NAME, u, v));
@@ -84,7 +93,10 @@ fn exact<V: Inner<Ex, N>, const N: usize>(rep: &mut Report) {
                 let mg: T = rq(mg);
                 let r = cu.normalize_to(mg);
                 same_slice(ctx, &key("normalize_to/length"), &[r.magnitude2()], &[mg * mg]);
-                same_slice(ctx, &key("normalize_to/multiple"), &model::vscale(r.arr(), m), &model::vscale(u, mg));
+                // a positive multiple of v is stated for m > 0 only; for m < 0 the statement fixes the length |m|
+                if mg > T::int(0) {
+                    same_slice(ctx, &key("normalize_to/multiple"), &model::vscale(r.arr(), m), &model::vscale(u, mg));
+                }
             }
             // distance: u' = w + u, v' = w
             for w in &gen {
@@ -121,7 +133,8 @@ fn exact_angle(rep: &mut Report) {
             "X",
             &format!("lattice codes {}..{} x {} rational axes, scales 2 and 1/2; Vector2 (signed), Vector3, Vector4, Quaternion", -reach, reach, axes.len()),
             total,
-            Guard::states(50).distinct(20),
+            // an angle computed another correct way (half-angle formulas) may leave the rational field: inconclusive, not wrong
+            Guard::states(50).distinct(20).inconclusive(0.9),
             |i, ctx| {
                 let (k, ai) = (ks[i / axes.len()], i % axes.len());
                 let (an, ad) = axes[ai];
@@ -229,8 +242,15 @@ fn grid<T: Tier + Dom<M = Sh>, V: Inner<T, N>, const N: usize>(rep: &mut Report,
                 eq_s::<T>(ctx, &key("normalize/unit"), n.magnitude(), Sh::exact(1.0).with_err_of(model::vdot(nm, nm).sqrt()));
                 for mg in [3.0f64, -0.5] {
                     let mgt: T = num_traits::cast::<f64, T>(mg).unwrap();
-                    let exp = model::vscale(mu, Sh::exact(mg) / mmag);
-                    eq_v::<T, N>(ctx, &key("normalize_to"), cu.normalize_to(mgt).arr(), exp);
+                    let got = cu.normalize_to(mgt);
+                    if mg > 0.0 {
+                        let exp = model::vscale(mu, Sh::exact(mg) / mmag);
+                        eq_v::<T, N>(ctx, &key("normalize_to"), got.arr(), exp);
+                    } else {
+                        // m < 0: the statement fixes the length |m| only
+                        let nm = model::vdiv(mu, mmag);
+                        eq_s::<T>(ctx, &key("normalize_to/length"), got.magnitude(), Sh::exact(mg.abs()).with_err_of(model::vdot(nm, nm).sqrt()).with_abs_err(4.0 * mg.abs()));
+                    }
                 }
             }
             if !v_zero {
@@ -424,7 +444,95 @@ fn small_angle2<T: Tier + Dom<M = Sh>>(rep: &mut Report) {
     );
 }
 
+/// float tiers: vectors a hair off unit length (and off the target length of normalize_to)
+fn near_unit<T: Tier + Dom<M = Sh>, V: Inner<T, N>, const N: usize>(rep: &mut Report) {
+    let py = pythagorean(N);
+    let ks: Vec<i32> = if T::NAME == "F" { vec![8, 14, 20] } else { vec![10, 24, 36, 48] };
+    rep.cases(
+        &format!("near-unit/{}", V::NAME),
+        T::NAME,
+        &format!("{} rational unit directions x (1 +- 2^-k), k in {:?}: magnitude, normalize, normalize_to(3)", py.len(), ks),
+        py.len() * ks.len() * 2,
+        Guard::states(4).distinct(4),
+        |i, ctx| {
+            let (pi, rest) = (i / (ks.len() * 2), i % (ks.len() * 2));
+            let (k, sg) = (ks[rest / 2], if rest % 2 == 0 { 1.0 } else { -1.0 });
+            let l = (py[pi].iter().map(|x| (x * x) as f64).sum::<f64>()).sqrt();
+            let f = (1.0 + sg * 2f64.powi(-k)) / l;
+            let u: [T; N] = std::array::from_fn(|j| num_traits::cast::<f64, T>(py[pi][j] as f64 * f).unwrap());
+            ctx.describe(|| format!("{}<{}> u={:?} (length 1 {} 2^-{k})", V::NAME, T::NAME, u, if sg > 0.0 { "+" } else { "-" }));
+            ctx.out(&(pi, rest));
+            let cu = V::mk(u);
+            let mu = lift_v(u);
+            let mmag = model::vdot(mu, mu).sqrt();
+            eq_s::<T>(ctx, &key("magnitude/near-unit"), cu.magnitude(), mmag);
+            let nm = model::vdiv(mu, mmag);
+            eq_v::<T, N>(ctx, &key("normalize/near-unit"), cu.normalize().arr(), nm);
+            eq_s::<T>(ctx, &key("normalize/unit/near-unit"), cu.normalize().magnitude(), Sh::exact(1.0).with_err_of(model::vdot(nm, nm).sqrt()));
+            let three: T = num_traits::cast::<f64, T>(3.0).unwrap();
+            let v3x: [T; N] = u.map(|x| x * three);
+            eq_v::<T, N>(ctx, &key("normalize_to/near-target"), V::mk(v3x).normalize_to(three).arr(), model::vscale(nm, Sh::exact(3.0)).map(|x| x.with_abs_err(8.0)));
+        },
+    );
+}
+
+/// unsigned angles (dimension 3, 4, quaternions) next to 0 and next to pi, non-dyadic components
+fn small_angle_n<T: Tier + Dom<M = Sh>, V: Inner<T, N>, const N: usize>(rep: &mut Report) {
+    let steps: Vec<f64> = vec![2f64.powi(-3), 2f64.powi(-6), 2f64.powi(-9)];
+    let nb = 3;
+    rep.cases(
+        &format!("small-angle/{}", V::NAME),
+        T::NAME,
+        &format!("3 generic u x steps {:?} x {N} directions x both signs: v = +-u + step * |u| * e_j (rounded): angles next to 0 and next to pi", steps),
+        nb * steps.len() * N * 2,
+        Guard::states(6).distinct(6),
+        |i, ctx| {
+            let d = alphabet::decode(i, &[nb, steps.len(), N, 2]);
+            let base = alphabet::generic(N, d[0]);
+            let c = |x: f64| num_traits::cast::<f64, T>(x).unwrap();
+            let u: [T; N] = std::array::from_fn(|j| c(base[j].0 as f64 / base[j].1 as f64 / 3.0));
+            let ulen = u.iter().map(|x| x.f() * x.f()).sum::<f64>().sqrt();
+            let sg = if d[3] == 0 { 1.0 } else { -1.0 };
+            let v: [T; N] = std::array::from_fn(|j| c(sg * u[j].f() + if j == d[2] { steps[d[1]] * ulen } else { 0.0 }));
+            ctx.describe(|| format!("{}<{}> u={:?} v={:?}", V::NAME, T::NAME, u, v));
+            ctx.out(&d);
+            let (mu, mv): ([Sh; N], [Sh; N]) = (lift_v(u), lift_v(v));
+            let (lu, lv) = (model::vdot(mu, mu).sqrt(), model::vdot(mv, mv).sqrt());
+            let (nu, nv) = (model::vdiv(mu, lu), model::vdiv(mv, lv));
+            // well-conditioned everywhere: 2 atan2(|u^ - v^|, |u^ + v^|)
+            let (df, sm) = (model::vsub(nu, nv), model::vadd(nu, nv));
+            let reference = 2.0 * model::vdot(df, df).sqrt().v.atan2(model::vdot(sm, sm).sqrt().v);
+            let mdot = model::vdot(mu, mv);
+            let mlen = lu * lv;
+            for (a, name) in [(V::mk(u).angle(V::mk(v)).0.f(), "angle(u,v)"), (V::mk(v).angle(V::mk(u)).0.f(), "angle(v,u)")] {
+                ctx.check(a >= 0.0 && a <= PI + 4.0 * T::U * PI, &key(&format!("angle/{}/range/nearly-parallel", V::NAME)), || format!("{name} = {a}"));
+                ctx.t();
+                let lhs = mlen.v * a.cos();
+                let tol = K_TOL * T::U * (mlen.e + mdot.e + 8.0 * mlen.v);
+                if !((lhs - mdot.v).abs() <= tol) {
+                    ctx.fail(&key(&format!("angle/{}/cosine-law/nearly-parallel", V::NAME)), || format!("|u||v|cos({name}) = {lhs:e} but u.v = {:e} ({name} = {a})", mdot.v));
+                }
+                // an error eps in the cosine moves the angle by eps / sin(angle)
+                ctx.t();
+                let eps = K_TOL * T::U * 16.0;
+                let tol = (eps / reference.sin().abs().max(1e-300)).min((2.0 * eps).sqrt() * 2.0) + eps;
+                if !((a - reference).abs() <= tol) {
+                    ctx.fail(&key(&format!("angle/{}/value/nearly-parallel", V::NAME)), || format!("{name} = {a:e}, reference {reference:e} (tolerance {tol:e})"));
+                }
+            }
+        },
+    );
+}
+
 fn close<T: Tier + Dom<M = Sh>>(rep: &mut Report) {
+    small_angle_n::<T, Vector3<T>, 3>(rep);
+    small_angle_n::<T, Vector4<T>, 4>(rep);
+    small_angle_n::<T, Quaternion<T>, 4>(rep);
+    near_unit::<T, Vector1<T>, 1>(rep);
+    near_unit::<T, Vector2<T>, 2>(rep);
+    near_unit::<T, Vector3<T>, 3>(rep);
+    near_unit::<T, Vector4<T>, 4>(rep);
+    near_unit::<T, Quaternion<T>, 4>(rep);
     small_angle2::<T>(rep);
     close_sys::<T, 1>(rep, "Vector1", |u, v| mk_v1(u).distance2(mk_v1(v)), |u, v| mk_v1(u).distance(mk_v1(v)));
     close_sys::<T, 2>(rep, "Vector2", |u, v| mk_v2(u).distance2(mk_v2(v)), |u, v| mk_v2(u).distance(mk_v2(v)));
